@@ -103,15 +103,21 @@ def converter_env():
         def __init__(self, n): self.n = n
         def __repr__(self): return self.n
 
+    class ConversionState:
+        """as the dataclass of sigma.conversion.state: (deferred, processing_state), fresh containers by default"""
+        def __init__(self, deferred=None, processing_state=None):
+            self.deferred = [] if deferred is None else deferred
+            self.processing_state = {} if processing_state is None else processing_state
+
     names = ("EVENT_COUNT", "VALUE_COUNT", "VALUE_SUM", "VALUE_AVG", "VALUE_PERCENTILE", "VALUE_MEDIAN", "TEMPORAL", "TEMPORAL_ORDERED")
     SigmaCorrelationType = _types.SimpleNamespace(**{n_: _Type(n_) for n_ in names})
     return {"SigmaError": SigmaError, "SigmaConversionError": SigmaConversionError, "SigmaCorrelationType": SigmaCorrelationType,
-            "SigmaExtendedCorrelationCondition": SigmaExtendedCorrelationCondition, "NotImplementedError": NotImplementedError, "Exception": Exception}
+            "SigmaExtendedCorrelationCondition": SigmaExtendedCorrelationCondition, "ConversionState": ConversionState, "NotImplementedError": NotImplementedError, "Exception": Exception}
 
 
 def run_per_rule_converter(ctx, fn: str, fin_sub: bool = False, referenced: bool = False, output: bool = True, fail_at: str | None = None,
                            collect: bool = False, me=None, fail_with: BaseException | None = None, keep_pipeline: bool = False, output_format: str | None = None,
-                           rule_type: str = "EVENT_COUNT", extended_condition: bool = False):
+                           rule_type: str = "EVENT_COUNT", extended_condition: bool = False, convert_fn=None):
     """Backend.convert_rule / convert_correlation_rule interpreted (sa.tabulate, Proxy) on a stand-in rule with two queries.
     fail_at ∈ {None, 'pipeline', 'convert', 'finish', 'finalize'} makes that stage raise a (stand-in) SigmaError.
     Returns a namespace: ret, raised, stored, finalised_calls, errors, rule, me, error (the injected error object)."""
@@ -156,7 +162,7 @@ def run_per_rule_converter(ctx, fn: str, fin_sub: bool = False, referenced: bool
         finalised_calls.append(query)
         return stage("finalize", f"FINAL({query})")
 
-    pipeline = _types.SimpleNamespace(apply=lambda rule_: stage("pipeline", None), state={})
+    pipeline = _types.SimpleNamespace(apply=lambda rule_: stage("pipeline", None), state={"set by the pipeline": 1})
     corr = lambda rule_, fmt, method: stage("convert", ["c0", "c1"])  # noqa: E731
     # with the pipeline initialisation of the source in play, a missing attribute of the backend (no pipeline yet) is a behaviour
     IK = {"behaviours": (SigmaError,) + ((type(fail_with),) if fail_with is not None else ()) + ((AttributeError, KeyError) if keep_pipeline else ()), "max_steps": 8000}
@@ -168,7 +174,7 @@ def run_per_rule_converter(ctx, fn: str, fin_sub: bool = False, referenced: bool
     if not keep_pipeline:
         me.last_processing_pipeline = pipeline
     me.finalize_correlation_subqueries = fin_sub
-    me.convert_condition = lambda c, st: stage("convert", c)
+    me.convert_condition = (lambda c, st: stage("convert", convert_fn(c, st))) if convert_fn is not None else (lambda c, st: stage("convert", c))
     me.finish_query = lambda rule_, q, st: stage("finish", f"fin({q})")
     me.finalize_query = finalize_query
     def mk_corr(name):
